@@ -72,6 +72,9 @@ pub fn ordering_family(names: &[String], thorough: bool) -> Vec<(String, bool)> 
     // a quoted comment that mentions the variables in ANOTHER order than the list below it
     out.push((format!("\"first {} then the others\"\n{}\n", names.join(" and "), rev.join(" ")), false));
     out.push((format!("{} \"not {}\"", rev.join("\n"), names.join(" ")), false));
+    // lines that begin with a table bar or another stray character
+    out.push((rev.join("\n| "), false));
+    out.push((format!("| {} |", rev.join(" | ")), false));
     out.push((format!("exists {} # not {}", rev.join(" => "), rev[0]), false));
     let mut seen = vec![];
     out.retain(|(o, _)| {
@@ -385,13 +388,22 @@ fn run(ctx: &mut Ctx) {
     }
     // names that need care in an ordering file: primes, underscores, digits, non-ASCII letters
     {
-        let rename = |a: &Ast| -> Ast {
+        let rename = |a: &Ast, set: usize| -> Ast {
+            SET.with(|c| c.set(set));
+            thread_local! {
+                static SET: std::cell::Cell<usize> = const { std::cell::Cell::new(0) };
+            }
             fn go(a: &Ast) -> Ast {
-                let r = |n: &String| match n.as_str() {
-                    "a" => "x'".to_string(),
-                    "b" => "b_1".to_string(),
-                    "c" => "\u{e9}2".to_string(),
-                    o => o.to_string(),
+                let set = SET.with(|c| c.get());
+                let r = |n: &String| match (set, n.as_str()) {
+                    (0, "a") => "x'".to_string(),
+                    (0, "b") => "b_1".to_string(),
+                    (0, "c") => "\u{e9}2".to_string(),
+                    // a combining mark, a connector and a joiner inside names
+                    (1, "a") => "e\u{301}".to_string(),
+                    (1, "b") => "e".to_string(),
+                    (1, "c") => "k\u{203f}1\u{200d}".to_string(),
+                    (_, o) => o.to_string(),
                 };
                 match a {
                     Ast::Var(v) => Ast::Var(r(v)),
@@ -407,8 +419,8 @@ fn run(ctx: &mut Ctx) {
             }
             go(a)
         };
-        for (a, names, _) in set.iter().filter(|(a, n, _)| a.size() <= 3 && n.len() >= 2 && n.len() <= 3).step_by(7) {
-            let ra = rename(a);
+        for (k, (a, names, _)) in set.iter().filter(|(a, n, _)| a.size() <= 3 && n.len() >= 2 && n.len() <= 3).step_by(7).enumerate() {
+            let ra = rename(a, k % 2);
             let text = refl::pp(&ra, refl::MINIMAL);
             for (o, core) in ordering_family(&ra.names(), false) {
                 if !core {
